@@ -353,3 +353,48 @@ def rule_E2(prog):
                                t["line"], nkey, cname, meth, ", ".join(facts) or "none",
                                "old" if meth == "delete" else "new"), file=fn.file, line=m.blocks[fb]["term"]["line"])
     return r
+
+
+def rule_E5(prog):
+    r = RuleResult("E5", "one cursor, one origin: every hook-call position that is built from a cursor variable adds the same "
+                         "base to it (`range.start + common_prefix_len + cursor` everywhere); a call site that drops or adds a "
+                         "term reports a position in another coordinate system than its siblings")
+    from collections import Counter
+    for fn in prog.user_fns():
+        if not fn.mir or fn.module not in SCOPE_MODULES:
+            continue
+        sc = CursorScan(fn)
+        if not sc.cursors:
+            continue
+        m = fn.mir
+        forms = {}       # cursor -> [(base form, line, src)]
+        for bb, t, meth in emissions(fn):
+            op, ol, np_, nl = SIG[meth]
+            for pi in (op, np_):
+                if pi is None or pi >= len(t["args"]):
+                    continue
+                pos = m.expand(m.resolve_operand(t["args"][pi]), depth=3)
+                posl = norm(lin(m, pos))
+                for c, name in sc.cursors.items():
+                    ck = term_str(("local", name, c))
+                    if posl.get(ck) == 1:
+                        base = tuple(sorted((k, v) for k, v in posl.items() if k not in (ck, "#")))
+                        forms.setdefault(c, []).append((base, t["line"], t.get("src", meth)))
+        for c, lst in forms.items():
+            if len(lst) < 2:
+                continue
+            r.instances += 1
+            cnt = Counter(b for b, _, _ in lst)
+            ok = len(cnt) == 1
+            r.ob(ok, "%s: cursor %s is offset by %s at %d call site(s)" % (
+                fn.path, sc.cursors[c], [_fmt(dict(b)) for b in cnt], len(lst)))
+            if not ok:
+                common = cnt.most_common(1)[0][0]
+                for b, line, src in lst:
+                    if b != common:
+                        r.find(fn.path, "cursor-base:%s" % sc.cursors[c],
+                               "`%s` builds a position as %s + %s, while the other %d call site(s) of this function use %s + %s" % (
+                                   src[:80], _fmt(dict(b)) or "0", sc.cursors[c], cnt[common], _fmt(dict(common)) or "0",
+                                   sc.cursors[c]), file=fn.file, line=line)
+                        break
+    return r
